@@ -20,6 +20,7 @@ import (
 	"time"
 
 	"github.com/bytemare/secp256k1"
+	"github.com/bytemare/secp256k1/internal/field"
 	"github.com/bytemare/secp256k1/zz_verif/gen"
 	"github.com/bytemare/secp256k1/zz_verif/mon"
 	"github.com/bytemare/secp256k1/zz_verif/oracle"
@@ -54,7 +55,7 @@ func init() {
 		Flavour: "race",
 		Rule: "executions = (goroutine count, GOMAXPROCS, seed) runs of a workload in which each goroutine owns its receivers and draws, from its own PRNG, API calls whose arguments come from one shared table: " +
 			"shared *Element (affine, λ-scaled, identity forms), shared *Scalar, shared message/DST/encoding slices in all layouts (len=cap, spare capacity 1/8/64, interior sub-slice, zero-length of a non-empty array, DST lengths on both sides of 255), shared [32]byte arrays. " +
-			"Each program starts by calling every function once in the same order, and half of the runs are concurrent-first (nothing of the library has run in the process before the goroutines start), so that first uses coincide. Every exported function and method is in the mix (constructors, Base, Identity, Set, Copy, Add, Subtract, Double, Negate, Multiply, Equal, IsIdentity, all encoders/decoders, HashToGroup, EncodeToGroup, HashToScalar, all scalar operations, Pow, CSelect, LessOrEqual, Bits, Random, Order). " +
+			"Each program starts by calling every function once in the same order, and half of the runs are concurrent-first (nothing of the library has run in the process before the goroutines start), so that first uses coincide. Every exported function and method is in the mix (the exported map-to-curve functions SSWU / IsogenySecp256k13iso / Secp256Polynomial with the exceptional inputs, writes into returned slices, ground-truth probes whose expected values come from the oracle rather than from the solo pass, constructors, Base, Identity, Set, Copy, Add, Subtract, Double, Negate, Multiply, Equal, IsIdentity, all encoders/decoders, HashToGroup, EncodeToGroup, HashToScalar, all scalar operations, Pow, CSelect, LessOrEqual, Bits, Random, Order). " +
 			"Oracle: zero race-detector reports with a frame of the module under test; every call's result equals the result of the same call sequence run alone beforehand; the package-level identity and error variables are unchanged. " +
 			"A storm of 16 goroutines x thousands of concurrent Random calls on the real entropy source must not return any scalar twice. The detector is armed first with a deliberate race in harness code and the run is inconclusive if that is not reported. evaluations = API calls made concurrently; non-trivial = calls taking a shared argument; distinct = distinct (function, shared-argument) pairs exercised concurrently.",
 		Assume: []string{
@@ -76,6 +77,10 @@ type c16Shared struct {
 	encs    [][]byte // element encodings (valid and invalid), scalar encodings
 	arr     [][32]byte
 	names   map[string][]string
+	us      []*big.Int // inputs of the map-to-curve functions (exceptional ones included)
+
+	probeMsg, probeDst                                     []byte
+	truthOrder, truthG, truthH2S, truthH2G, truthNegG []byte
 }
 
 func c16BuildShared(seed uint64) *c16Shared {
@@ -125,6 +130,17 @@ func c16BuildShared(seed uint64) *c16Shared {
 		sh.arr = append(sh.arr, x, y)
 	}
 
+	ex, _ := oracle.FSqrt(oracle.FNeg(oracle.FInv0(oracle.Z)))
+	sh.us = []*big.Int{big.NewInt(0), ex, oracle.FNeg(ex), big.NewInt(1), gen.Draw(r, oracle.P).X, gen.Draw(r, oracle.P).X}
+
+	sh.probeMsg, sh.probeDst = []byte("c16 probe message"), []byte("c16-probe-dst-0123456789")
+	sh.truthOrder = oracle.Bytes32(oracle.N)
+	sh.truthG = oracle.EncC(oracle.G())
+	sh.truthH2S = oracle.Bytes32(oracle.HashToScalar(sh.probeMsg, sh.probeDst))
+	hp, _ := oracle.HashToCurve(sh.probeMsg, sh.probeDst)
+	sh.truthH2G = oracle.EncC(hp)
+	sh.truthNegG = oracle.EncC(oracle.Neg(oracle.G()))
+
 	return sh
 }
 
@@ -142,7 +158,7 @@ func digest(parts ...any) uint64 {
 	return h.Sum64()
 }
 
-const c16NOps = 52
+const c16NOps = 58
 
 func c16Do(op int, st *c16Own, sh *c16Shared, r *gen.Rng) (name string, d uint64, deterministic bool) {
 	ei := r.Intn(len(sh.elems))
@@ -307,9 +323,55 @@ func c16Do(op int, st *c16Own, sh *c16Shared, r *gen.Rng) (name string, d uint64
 		// empty DST panics (and must not write)
 		pan, _ := mon.Call(func() { secp256k1.HashToScalar(M, D[:0]) })
 		return "HashToScalar(empty dst)", digest(pan), true
-	default:
+	case 51:
 		err := s.CSelect(1, S, nil)
 		return "Scalar.CSelect(nil)", digest(errS(err)), true
+	case 52:
+		// the exported map-to-curve functions, including the three exceptional inputs
+		u := sh.us[r.Intn(len(sh.us))]
+		q := secp256k1.SSWU(mon.FE(u))
+		x, y, _ := secp256k1.VRaw(q)
+
+		return "SSWU", digest(x, y), true
+	case 53:
+		u := sh.us[r.Intn(len(sh.us))]
+		q := secp256k1.IsogenySecp256k13iso(secp256k1.SSWU(mon.FE(u)))
+
+		return "IsogenySecp256k13iso", digest(q.Encode()), true
+	case 54:
+		var y2 field.Element
+
+		secp256k1.Secp256Polynomial(&y2, mon.FE(sh.us[r.Intn(len(sh.us))]))
+
+		return "Secp256Polynomial", digest(y2.E), true
+	case 55:
+		// the caller owns what it was handed: it writes into the returned slices
+		o := secp256k1.Order()
+		for i := range o {
+			o[i] = byte(i)
+		}
+
+		enc := e.Encode()
+		enc[0] ^= 0xff
+		h := s.Encode()
+		h[31] ^= 0xff
+
+		return "write-into-returned-slices", digest(secp256k1.Order(), e.Encode(), s.Encode()), true
+	case 56:
+		// ground truth that does not depend on any earlier call
+		if !bytes.Equal(secp256k1.Order(), sh.truthOrder) || !bytes.Equal(secp256k1.Base().Encode(), sh.truthG) || !secp256k1.NewElement().IsIdentity() ||
+			!bytes.Equal(secp256k1.HashToScalar(sh.probeMsg, sh.probeDst).Encode(), sh.truthH2S) {
+			return "TRUTH-VIOLATED: Order()/Base()/NewElement()/HashToScalar no longer return their documented values", 1, true
+		}
+
+		return "truth", 0, true
+	default:
+		if !bytes.Equal(secp256k1.HashToGroup(sh.probeMsg, sh.probeDst).Encode(), sh.truthH2G) ||
+			!bytes.Equal(secp256k1.Base().Multiply(sh.scalars[3]).Encode(), sh.truthNegG) {
+			return "TRUTH-VIOLATED: HashToGroup / Base().Multiply(n-1) no longer return the RFC / group-law value", 1, true
+		}
+
+		return "truth", 0, true
 	}
 }
 
@@ -559,9 +621,19 @@ func C16Load(seed uint64, goroutines, iters int, out string, concFirst bool) int
 				pairs[name] = true
 			}
 
-			if solo[g].names[i] != name {
+			if solo[g].names[i] != name && !strings.HasPrefix(name, "TRUTH-VIOLATED") && !strings.HasPrefix(solo[g].names[i], "TRUTH-VIOLATED") {
 				res.Mismatches = append(res.Mismatches, fmt.Sprintf("goroutine %d call %d: program diverged (%s vs %s) — harness error", g, i, solo[g].names[i], name))
 				break
+			}
+
+			for _, lg := range []*c16Log{solo[g], conc[g]} {
+				if strings.HasPrefix(lg.names[i], "TRUTH-VIOLATED") && len(res.Mismatches) < 20 {
+					res.Mismatches = append(res.Mismatches, fmt.Sprintf("goroutine %d call %d: %s", g, i, lg.names[i]))
+				}
+			}
+
+			if strings.HasPrefix(name, "TRUTH-VIOLATED") || strings.HasPrefix(solo[g].names[i], "TRUTH-VIOLATED") {
+				continue
 			}
 
 			if conc[g].det[i] && solo[g].digests[i] != conc[g].digests[i] && len(res.Mismatches) < 20 {
